@@ -47,6 +47,26 @@ def spice(rng, opts):
                     x[fld] = None
 
 
+def same_name_twice(rng, opts):
+    """Give two subcommands with DIFFERENT parents the same name (`tool remote add` / `tool stash add`, or `tool add` /
+    `tool stash add`): every level still has its own section."""
+    pairs = []
+    def go(o):
+        kids = c12.C12.level_cmds(o["p"])
+        for c in kids:
+            pairs.append((o, c, kids))
+            go(c["options"])
+    go(opts)
+    rng.shuffle(pairs)
+    for pa, a, _ in pairs:
+        for pb, b, kids_b in pairs:
+            if pa is not pb and a is not b and a["name"] != b["name"] and \
+                    all(a["name"] not in [k["name"]] + k["aliases"] for k in kids_b if k is not b):
+                b["name"] = a["name"]
+                return True
+    return False
+
+
 def cased_non_ascii(opts):
     """Any string of the definition with a cased non-ASCII letter (the model's to_uppercase/to_lowercase are the ASCII ones)
     or a non-ASCII command name."""
@@ -235,6 +255,8 @@ class C16(Property):
             opts, names = gen.gen_options(rng, features=rng.choice([("alt", "cmd", "pos"), ("alt", "adj", "cmd", "pos")]),
                                           env_p=0.15, allow_catch=False, unicode_ok=False)
             c12.regroup(rng, opts, names)
+            if rng.random() < 0.4:
+                same_name_twice(rng, opts)
             if rng.random() < 0.5:
                 opts["header"] = "HEADERTEXT here"
                 opts["footer"] = "FOOTERTEXT here"
